@@ -1747,6 +1747,7 @@ func (h *c15H) evaluate() {
 			case hungMatched != "":
 				class = "C15.fanout-blocked-by-unresponsive-subscriber"
 				why = "subscriber " + hungMatched + " stopped reading while staying connected"
+			case h.churn:
 			case e.lower:
 				class = "C15.overlap-lower-qos-filter-shadows"
 				why = "the client itself also holds a matching filter with a lower QoS"
@@ -2010,6 +2011,12 @@ func c15Exec(r *sim.Run, sci interface{}) {
 				r.Sleep(50 * time.Millisecond)
 			}
 		}
+	}
+	if h.locked {
+		// Broker.close would block on the broker lock for ever; end the accept
+		// loop (it spins on a closed listener until done is closed) by hand
+		h.broker.setClose()
+		close(h.broker.done)
 	}
 	h.net.Shutdown()
 	r.WaitTasks()
